@@ -25,4 +25,78 @@ def correspond(ctx):
 
 
 def search(ctx, hints):
-    return dict(evaluations=0, distinct_nontrivial=0, violations=[], samples=[])
+    """Direct oracle for the six clauses on the implementation (harness mode=search)."""
+    res = dict(evaluations=0, distinct_nontrivial=0, violations=[], samples=[])
+    binp = os.path.join(vlib.HARNESS, 'bin', 'c20')
+    if not os.path.exists(binp):
+        binp, log = vlib.go_build(ctx, vlib.HARNESS, './cmd/c20', 'c20')
+        if not binp:
+            res['error'] = 'searcher build failed: ' + log[-1500:]
+            return res
+    cwd = ctx.scratch('c20search')
+    ops = os.path.join(ctx.work, 'c20search.ops')
+    obs = os.path.join(ctx.work, 'c20search.obs')
+    env = dict(VERIF_SEED=str(ctx.seed + 7919), VERIF_TIER=ctx.tier,
+               VERIF_CORPUS=os.path.join(vlib.VERIF, 'corpus', ctx.pid), GOMEMLIMIT='8GiB')
+    broken = bool(hints.get('broken'))
+    tier = 'thorough' if (ctx.thorough() or broken) else 'quick'
+    rc, so, se = vlib.run([binp, 'mode=search', 'ops=' + ops, 'obs=' + obs, 'tier=' + tier], cwd=cwd, env=env, timeout=1500)
+    import shutil
+    shutil.rmtree(cwd, ignore_errors=True)
+    if rc != 0:
+        res['error'] = 'searcher exited %d: %s' % (rc, (se or so)[-800:])
+        return res
+    seen = set()
+    try:
+        for l in open(ops, errors='replace'):
+            seen.add(l)
+    except OSError:
+        pass
+    res['distinct_nontrivial'] = len(seen)
+    for line in so.split('\n'):
+        if line.startswith('VIOL '):
+            v = json.loads(line[5:])
+            res['violations'].append(dict(key=v['key'], desc=v['desc'],
+                                          replay=dict(script=v['script'], how='harness/bin/c20 script=<file with these lines>')))
+        elif line.startswith('NOTE '):
+            v = json.loads(line[5:])
+            res.setdefault('outside_hypothesis', []).append(dict(key=v['key'], desc=v['desc'][:400], script_tail=v['script'][-3:]))
+        elif line.startswith('SEARCH '):
+            j = json.loads(line[7:])
+            res['evaluations'] = j['evaluations']
+            res['checks'] = j['checks']
+        elif line.startswith('STATS '):
+            try:
+                res['stats'] = json.loads(line[6:])
+            except Exception:
+                pass
+    res['samples'] = [dict(key=v['key'], desc=v['desc'][:300]) for v in res['violations'][:4]]
+    return res
+
+
+def replay(ctx, payload):
+    """Re-run a recorded op script on the implementation and on the model; print both."""
+    script = (payload.get('replay') or {}).get('script') or payload.get('script') or []
+    if not script:
+        print(json.dumps(payload, indent=1))
+        return 0
+    binp, log = vlib.go_build(ctx, vlib.HARNESS, './cmd/c20', 'c20')
+    if not binp:
+        print(log)
+        return 1
+    f = os.path.join(ctx.work, 'replay.ops')
+    open(f, 'w').write('\n'.join(l for l in script if True) + '\ndump\n')
+    cwd = ctx.scratch('c20replay')
+    rc, so, se = vlib.run([binp, 'script=' + f], cwd=cwd, env=dict(vlib.GOENV), timeout=300)
+    import shutil
+    shutil.rmtree(cwd, ignore_errors=True)
+    impl = [l for l in so.split('\n') if ' => ' in l]
+    mod = os.path.join(ctx.work, 'replay.mod')
+    vlib.run_driver('C20', f, mod)
+    ml = open(mod).read().split('\n')
+    for i, l in enumerate(impl):
+        op, ans = l.split(' => ', 1)
+        print('op    ', op)
+        print(' impl ', ans)
+        print(' model', ml[i] if i < len(ml) else '<none>')
+    return 0
